@@ -232,7 +232,7 @@ async def scenario(world: WorldA) -> None:
                 world.loop.stalls_on = False
                 try:
                     await run_pair(world, ti, op, spa, struct, protocol, peer, snap_block, installs)
-                    await world.quiesce(extra_idle=0.25, cap=120.0, queues=[protocol.queue])
+                    await drained(world, protocol)
                 finally:
                     world.loop.stalls_on = True
                     for k, v in saved.items():
@@ -345,7 +345,7 @@ async def scenario(world: WorldA) -> None:
             if sum(res.faults.values()) > faults_before:
                 res.nontrivial = True
             shapes.append(mix(0, repr(pattern)))
-            await world.quiesce(extra_idle=0.25, cap=120.0, queues=[protocol.queue])
+            await drained(world, protocol)
     finally:
         struct.replace_status_block_segment = orig_replace
         world.net.healed = True
@@ -362,6 +362,17 @@ async def scenario(world: WorldA) -> None:
     res.sample = {"profile": cfg["profile"], "snapshot": cfg["snapshot"],
                   "plan": [(o.get("start", o.get("ranges")), o.get("length"), o["retries"]) for o in world.case["plan"][:6]],
                   "faults": dict(res.faults)}
+
+
+async def drained(world: WorldA, protocol) -> None:
+    """Between two transfers the connection's receive queue empties (the library discards what nobody claims).  If it does not within two
+    minutes the next transfer starts all the same: what it then makes of the left-overs is the library's doing, and is judged."""
+    try:
+        await world.quiesce(extra_idle=0.25, cap=120.0, queues=[protocol.queue])
+    except HarnessError:
+        if protocol.queue.qsize() == 0:
+            raise
+        world.result.probe("receive_queue_not_drained_between_transfers")
 
 
 async def run_pair(world: WorldA, ti: int, op: Dict[str, Any], spa, struct, protocol, peer, snap_block: bytes, installs: List[Any]) -> None:
